@@ -1036,24 +1036,14 @@ func (sw *SlidingWindow) emitLateUpdateOnceLocked(slot *types.TimeSlot) bool {
 		callback(resultData)
 	}
 
-	// Non-blocking send to output channel and update statistics
-	var sent bool
-	select {
-	case sw.outputChan <- resultData:
-		// Successfully sent
-		sent = true
-	default:
-		// Channel full, drop result
-		sent = false
-	}
+	// Hand the update over like any other result of this window: under the block
+	// strategy that means waiting for room (up to the timeout). The non-blocking
+	// send used here before dropped the late update whenever the output buffer was
+	// full, whatever the configured strategy.
+	sw.sendResult(resultData)
 
-	// Re-acquire lock to update statistics
+	// Re-acquire lock
 	sw.mu.Lock()
-	if sent {
-		sw.sentCount++
-	} else {
-		sw.droppedCount++
-	}
 	return true
 }
 
